@@ -1,6 +1,7 @@
 #![allow(dead_code)]
 //! vrlmc — bounded exhaustive exploration of vectordotdev/vrl (see /verif/DESIGN.md).
 
+mod corpus;
 mod explore;
 mod law;
 mod model;
